@@ -78,7 +78,8 @@ int cmd_gstrf(const case_t *c)
     int_t n = G.n;
     int nprocs = (int)cint(c, "np", 1);
     int ord = (int)cint(c, "ord", 0);
-    int w = (int)hx_ienv[1], relax = (int)hx_ienv[2];
+    /* what the caller passes as options (wopt / relaxopt) need not be what sp_ienv(1)/(2) answer (w / relax) */
+    int w = (int)cint(c, "wopt", hx_ienv[1]), relax = (int)cint(c, "relaxopt", hx_ienv[2]);
     double u = cdbl(c, "u", 1.0);
     int usepr = (int)cint(c, "usepr", 0);
     int symm = (int)cint(c, "symm", 0);
